@@ -6,7 +6,7 @@
    all valid derived tables. *)
 From Coq Require Import List ZArith Bool.
 From LJT Require Import gen.GenLimits model.Huff model.DMarkers model.DFastPath model.DProg model.DStream model.DCoef model.DArith proofs.DFastPathProofs proofs.DProgProofs proofs.DStreamProofs
-  proofs.DCacheProofs proofs.DCoefProofs proofs.DArithProofs
+  proofs.DCacheProofs proofs.DCoefProofs proofs.DArithProofs model.DCoefPos proofs.DCoefPosProofs
   proofs.DMarkersProofs proofs.DMarkersScanProofs proofs.DMarkersBlockProofs proofs.DMarkersFastProofs proofs.DMarkersTop.
 Import ListNotations.
 Local Open Scope Z_scope.
@@ -256,6 +256,18 @@ Theorem C01_coef_index_safe :
      0 <= mcu_blocks pre + y * fst c + x < L_D_MAX_BLOCKS_IN_MCU).
 Proof. exact (conj coef_index_safe_ mcu_buffer_index_safe_). Qed.
 Print Assumptions C01_coef_index_safe.
+
+(* (5e) the block positions of model/DCoefPos.v -- the ones compared at run time with the pointers the real consume_data
+   hands to the entropy decoder -- lie inside the virtual arrays, for interleaved and single-component scans *)
+Theorem C01_coef_positions_in_array :
+  (forall W H mh mv r m ci h v, 1 <= W -> 1 <= H -> 1 <= h <= mh -> 1 <= v <= mv ->
+     0 <= r < total_iMCU_rows H mv -> 0 <= m < interleaved_mcus_per_row W mh ->
+     Forall (pos_in_array W H mh mv h v) (comp_positions r 0 m (ci, h, v))) /\
+  (forall W H mh mv r yoff m ci h v, 1 <= W -> 1 <= H -> 1 <= h <= mh -> 1 <= v <= mv ->
+     0 <= r < total_iMCU_rows H mv -> 0 <= yoff < v -> 0 <= m < wib W h mh ->
+     Forall (pos_in_array W H mh mv h v) (mcu_positions false r yoff m [(ci, h, v)])).
+Proof. exact (conj comp_positions_in_array single_position_in_array). Qed.
+Print Assumptions C01_coef_positions_in_array.
 
 (* (4f) arithmetic decoder (jdarith.c decode_mcu): for EVERY sequence of binary decisions (hence every byte
    string, incl. the zero data after a marker), every conditioning value: all statistics-bin offsets are inside
